@@ -255,6 +255,10 @@ Alts(nt) ==
             A(1, Hd1 \o <<M("ao["), M("pl["), M("c["), M("fn["), T("f"), M("name:f"), T("("), TL(")"), NLB, M("c["), TL("{"), M("grp[")>> \o LnS
                    \o <<T("}"), M("]grp"), M("]c"), M("]fn"), M("]c"), M("]pl"), M("]ao"), M("]ln"), NLF>>),
             A(1, <<M("ln["), M("ao["), M("pl[")>> \o Cat \o <<H, M("]c"), M("]pl"), TL("&&"), M("op:&&"), NLB>> \o Pa \o <<M("]ao"), M("]ln"), NLF>>),
+            \* a here-document pending in front of an arithmetic command that spans lines: its newlines are not newline tokens,
+            \* the body follows the line that ends the command
+            A(1, Hd1 \o <<M("ao["), M("pl["), M("c["), T("(("), M("arith["), M("w["), TA("a -\n-b")>> \o MS(<<"lit:a", "lit:-", "lit:-b">>)
+                   \o <<M("]w"), TA("))"), M("]arith"), M("]c"), M("]pl"), M("]ao"), M("]ln"), NLF>>),
             \* inside a command substitution, followed by one outside
             A(1, <<M("ln["), M("ao["), M("pl["), M("c["), M("simple["), T("a")>> \o WLit("a") \o <<M("w["), T("$("), M("cs$["), M("ln["), M("ao["), M("pl[")>> \o CatA
                    \o <<H, M("]c"), M("]pl"), M("]ao"), M("]ln"), NL, T(")"), M("]cs"), M("]w"), M("]simple"), H, M("]c"), M("]pl"), M("]ao"), M("]ln"), NLF>>) >>
@@ -352,6 +356,10 @@ Alts(nt) ==
             A(1, <<M("simple["), M("]simple"), Same(nt, "redir"), Same(nt, "redirs0")>>),
             \* redirections in prefix position (fixed words), before / between assignments and the command word
             A(1, <<T(">"), T("o1"), M("simple["), Same(nt, "cword"), M("]simple"), M("r["), M("rop:>")>> \o WLit("o1") \o <<M("]r")>>),
+            \* behind a prefix the spelling of a reserved word is an ordinary command word
+            A(1, <<T(">"), T("o1"), M("simple["), T("if")>> \o WLit("if") \o <<T("a")>> \o WLit("a") \o <<M("]simple"), M("r["), M("rop:>")>> \o WLit("o1") \o <<M("]r")>>),
+            A(1, <<T("<"), T("i1"), M("simple["), T("!")>> \o WLit("!") \o <<T("{")>> \o WLit("{") \o <<M("]simple"), M("r["), M("rop:<")>> \o WLit("i1") \o <<M("]r")>>),
+            A(1, <<M("simple["), Same(nt, "assign"), T("for")>> \o WLit("for") \o <<T("x")>> \o WLit("x") \o <<M("]simple")>>),
             A(1, <<T("2"), TA(">&"), TA("1"), M("simple["), Same(nt, "assign"), Same(nt, "cword"), Same(nt, "args"), M("]simple"),
                    M("r["), M("n:2"), M("rop:>&")>> \o WLit("1") \o <<M("]r")>>),
             A(1, <<M("simple["), Same(nt, "assign"), T("<"), T("i1"), Same(nt, "cword"), T(">>"), TA("o2"), Same(nt, "args"), M("]simple"),
